@@ -68,6 +68,18 @@ def _evidence(prop: str, tier: str, seed: int, agg: Any, wall: float, rc: int) -
         "seeds_per_hour": round(agg.runs / wall * 3600.0, 1) if wall > 0 else 0.0,
         "operation_histogram": ops,
         "faults_fired": faults,
+        "disruptive_events": {
+            "process_restarts (crash: only the byte store survives)": ops.get("restart", 0),
+            "restarts_by_mode": {k: v for k, v in stats.items() if k.startswith("restart:")},
+            "loads_of_saved_state": stats.get("load:same", 0) + stats.get("load:fresh", 0),
+            "loads_into_fresh_incarnation": stats.get("load:fresh", 0),
+            "re-initialisations": ops.get("reset", 0) + stats.get("resets-in-bursts", 0),
+            "in-place_perturbations": ops.get("perturb", 0),
+            "optimiser_steps_ops": ops.get("optim", 0),
+            "diverged_updates_rolled_back": stats.get("diverged:optim", 0) + stats.get("diverged:perturb", 0),
+            "exceptional_block_exits": stats.get("exit:exc", 0) + stats.get("fault:fired:nested-block-exit", 0),
+            "documented_refusals": sum(v for k, v in stats.items() if k.startswith("refusal:") or k.startswith("excluded:refusal")),
+        },
         "counters": stats,
         "known_findings_hit": dict(agg.known),
         "harness_errors": len(agg.harness_errors),
